@@ -118,6 +118,11 @@ static std::vector<Family> families() {
   F.push_back({"value-slot", "DEFINE neg <V> AS RUN n WITH $0 END ENDDEF", {"neg", "a", "1", "RUN", "f", "WITH", "END", ","}});
   F.push_back({"args-slot", "DEFINE call <ID> ( <A> ) AS RUN $0 WITH $1 END ENDDEF", {"call", "f", "(", ")", "a", "1", ",", "RUN"}});
   F.push_back({"prog-slot", "DEFINE twice <P> endtwice AS $0 ; $0 ENDDEF", {"twice", "endtwice", "a", ":=", "1", ";", "STOP", "GOTO"}});
+  // the same slots with whole phrases as vocabulary items, so that short streams already contain nested calls, argument
+  // lists and compound statements
+  F.push_back({"value-slot-phrases", "DEFINE neg <V> AS RUN n WITH $0 END ENDDEF\nDEFINE PRIO 2 <V> ! AS RUN fact WITH $0 END ENDDEF", {"neg", "a", "RUN f WITH a END", "RUN g WITH RUN f WITH 1 END , a END", "!", "x :=", ";", "7"}});
+  F.push_back({"args-slot-phrases", "DEFINE call <ID> ( <A> ) AS RUN $0 WITH $1 END ENDDEF", {"call", "f", "(", ")", "a", "RUN f WITH a , 1 END", ",", "x :="}});
+  F.push_back({"prog-slot-phrases", "DEFINE twice <P> endtwice AS $0 ; $0 ENDDEF\nDEFINE PRIO 2 unless <V> THEN <P> END AS LOOP $0 DO $1 END ENDDEF", {"twice", "endtwice", "a := 1", "LOOP a DO b := RUN f WITH a END END", ";", "unless a THEN", "END", "la : STOP"}});
   F.push_back({"prog-slot-keywords", "DEFINE UNLESS <V> THEN <P> END AS LOOP $0 DO $1 END ENDDEF", {"UNLESS", "THEN", "END", "a", ":=", "1", ";", "LOOP"}});
   both("creates-new-matches", "DEFINE a AS b b ENDDEF", "DEFINE b b AS c ENDDEF", {"a", "b", "c", ";", "x", "1", ":=", "+"});
   F.push_back({"reorder-and-duplicate", "DEFINE swap <ID> <ID> AS $1 $0 $1 ENDDEF", {"swap", "a", "b", "c", ";", "1", ":=", "+"}});
